@@ -3,6 +3,7 @@
    ([rendered]); what is proved is which planes reach ImageData.set_data, that they read back, and
    when their number and size are the ones the header declares.  Every statement holds for every
    width, height, channel count, depth in {8,16,32} and all four compression methods. *)
+From Coq Require Import Reals.
 From PsdV Require Import Base.Prelude Pixels.Model Pixels.Corr Pixels.Proofs Pixels.File Pixels.Merged Pixels.MergedDoc.
 Open Scope Z_scope.
 
